@@ -186,3 +186,82 @@ package adaptation
 //@ apply wrapClear(clearMount, mounts, destination)
 //@ apply wrapClear(clearDevice, devices, path)
 //@ apply wrapClear(clearEnv, env, name)
+
+// ---------------------------------------------------------------------------
+// Creation path (result.go: adjust*)
+// ---------------------------------------------------------------------------
+// Vocabulary:  cid(r)   id of the container being created
+//              view(r)  the container shown to plugins (request.create.Container)
+//              reply(r) the combined adjustment returned to the runtime
+//              ledger(r).F   owner of item F of that container ("" = unowned)
+
+//@ pure cid(r *result) = r.request.create.Container.Id
+//@ pure view(r *result) = r.request.create.Container
+//@ pure reply(r *result) = r.reply.adjust
+//@ pure ledger(r *result) = r.owners[r.request.create.Container.Id]
+
+//@ pure wfCreate(r *result) = r != nil && allocated(r.request.create) && allocated(view(r)) && allocated(reply(r)) && wfRO(r.owners)
+//@     && allocated(view(r).Linux) && allocated(view(r).Linux.Resources) && allocated(view(r).Linux.Resources.Memory)
+//@     && allocated(view(r).Linux.Resources.Cpu) && view(r).Linux.Resources.Unified != nil
+//@     && view(r).Annotations != nil && allocated(view(r).Hooks)
+//@     && allocated(reply(r).Linux) && allocated(reply(r).Linux.Resources) && allocated(reply(r).Linux.Resources.Memory)
+//@     && allocated(reply(r).Linux.Resources.Cpu) && reply(r).Linux.Resources.Unified != nil
+//@     && reply(r).Annotations != nil && allocated(reply(r).Hooks)
+//@     && view(r).Linux.Resources != reply(r).Linux.Resources
+//@     && view(r).Linux.Resources.Memory != reply(r).Linux.Resources.Memory
+//@     && view(r).Linux.Resources.Cpu != reply(r).Linux.Resources.Cpu
+//@     && view(r).Linux.Resources.Unified != reply(r).Linux.Resources.Unified
+//@     && view(r).Annotations != reply(r).Annotations && view(r).Hooks != reply(r).Hooks
+
+// The parts of the ledger that a creation-path function does not name stay as they were.
+//@ pure ledgerKept(r *result) = wfRO(r.owners) && has(r.owners, cid(r))
+//@     && (forall j string :: j != cid(r) ==> has(r.owners, j) == old(has(r.owners, j)) && r.owners[j] == old(r.owners[j]))
+//@     && (old(has(r.owners, cid(r))) ==> ledger(r) == old(ledger(r)))
+//@ pure ledgerSame(r *result) = forall j string :: has(r.owners, j) == old(has(r.owners, j)) && r.owners[j] == old(r.owners[j])
+
+//@ func result.adjustCgroupsPath
+//@   props C01 C02 C03 C04
+//@   requires wfCreate(r)
+//@   modifies map(r.owners), ledger(r).cgroupsPath, view(r).Linux.CgroupsPath, reply(r).Linux.CgroupsPath
+//@   ensures [noop]     path == "" ==> result == nil && ledger(r).cgroupsPath == old(ledger(r).cgroupsPath)
+//@                      && view(r).Linux.CgroupsPath == old(view(r).Linux.CgroupsPath) && reply(r).Linux.CgroupsPath == old(reply(r).Linux.CgroupsPath)
+//@                      && ledgerSame(r)
+//@   ensures [conflict] path != "" && old(ledger(r).cgroupsPath) != "" ==> result != nil && ledger(r).cgroupsPath == old(ledger(r).cgroupsPath)
+//@                      && view(r).Linux.CgroupsPath == old(view(r).Linux.CgroupsPath) && reply(r).Linux.CgroupsPath == old(reply(r).Linux.CgroupsPath)
+//@   ensures [set]      path != "" && old(ledger(r).cgroupsPath) == "" ==> result == nil && ledger(r).cgroupsPath == plugin
+//@                      && view(r).Linux.CgroupsPath == path && reply(r).Linux.CgroupsPath == path
+//@   ensures [ledger]   path != "" ==> ledgerKept(r) && (!old(has(r.owners, cid(r))) ==> fresh(ledger(r)) && zeroedexcept(ledger(r), "cgroupsPath"))
+
+//@ func result.adjustOomScoreAdj
+//@   props C01 C02 C03 C04
+//@   requires wfCreate(r)
+//@   modifies map(r.owners), ledger(r).oomScoreAdj, view(r).Linux.OomScoreAdj, reply(r).Linux.OomScoreAdj
+//@   ensures [noop]     OomScoreAdj == nil ==> result == nil && ledger(r).oomScoreAdj == old(ledger(r).oomScoreAdj)
+//@                      && view(r).Linux.OomScoreAdj == old(view(r).Linux.OomScoreAdj) && reply(r).Linux.OomScoreAdj == old(reply(r).Linux.OomScoreAdj)
+//@                      && ledgerSame(r)
+//@   ensures [conflict] OomScoreAdj != nil && old(ledger(r).oomScoreAdj) != "" ==> result != nil && ledger(r).oomScoreAdj == old(ledger(r).oomScoreAdj)
+//@                      && view(r).Linux.OomScoreAdj == old(view(r).Linux.OomScoreAdj) && reply(r).Linux.OomScoreAdj == old(reply(r).Linux.OomScoreAdj)
+//@   ensures [set]      OomScoreAdj != nil && old(ledger(r).oomScoreAdj) == "" ==> result == nil && ledger(r).oomScoreAdj == plugin
+//@                      && view(r).Linux.OomScoreAdj == OomScoreAdj && reply(r).Linux.OomScoreAdj == OomScoreAdj
+//@   ensures [ledger]   OomScoreAdj != nil ==> ledgerKept(r) && (!old(has(r.owners, cid(r))) ==> fresh(ledger(r)) && zeroedexcept(ledger(r), "oomScoreAdj"))
+
+// two slices do not share a backing array (or one of them has none)
+//@ pure sep(a int, b int) = a == 0 || b == 0 || a != b
+// slice s is t, possibly re-allocated by append: same array or a fresh one
+//@ pure noNil3(n int) = n >= 0
+
+//@ func result.adjustArgs
+//@   props C01 C02 C03 C04
+//@   requires wfCreate(r)
+//@   modifies map(r.owners), ledger(r).args, view(r).Args, reply(r).Args
+//@   ensures [noop]     len(args) == 0 ==> result == nil && ledger(r).args == old(ledger(r).args)
+//@                      && view(r).Args == old(view(r).Args) && reply(r).Args == old(reply(r).Args) && ledgerSame(r)
+//@   ensures [conflict] len(args) > 0 && args[0] != "" && old(ledger(r).args) != "" ==> result != nil && ledger(r).args == old(ledger(r).args)
+//@                      && view(r).Args == old(view(r).Args) && reply(r).Args == old(reply(r).Args)
+//@   ensures [set]      len(args) > 0 && args[0] != "" && old(ledger(r).args) == "" ==> result == nil && ledger(r).args == plugin
+//@                      && len(reply(r).Args) == len(args) && (forall i int :: 0 <= i && i < len(args) ==> reply(r).Args[i] == args[i])
+//@                      && view(r).Args == reply(r).Args && fresh(reply(r).Args)
+//@   ensures [reset]    len(args) > 0 && args[0] == "" ==> result == nil && ledger(r).args == plugin
+//@                      && len(reply(r).Args) == len(args) - 1 && (forall i int :: 0 <= i && i < len(args) - 1 ==> reply(r).Args[i] == args[i+1])
+//@                      && view(r).Args == reply(r).Args && (len(args) > 1 ==> fresh(reply(r).Args))
+//@   ensures [ledger]   len(args) > 0 ==> ledgerKept(r) && (!old(has(r.owners, cid(r))) ==> fresh(ledger(r)) && zeroedexcept(ledger(r), "args"))
